@@ -5,6 +5,7 @@ root=$(cd "$(dirname "$0")/.." && pwd)
 cd "$root"
 export CARGO_NET_OFFLINE=true
 tools/srcparams.py "${VERIF_REPO:-/repo}" coq/Generated/SrcParams.v
+tools/rustfun.py "${VERIF_REPO:-/repo}" coq/Generated/SrcFuns.v
 tools/mkproject.sh
 ( cd coq && timeout 3000 make -j16 2>&1 | tail -40 )
 for f in ocaml/drv_*.ml; do
